@@ -230,7 +230,7 @@ Definition do_check (j : json) : json :=
     match check_container steps b with
     | None => JObj [("ok", JBool false); ("err", JStr "not a canonical DXBC container")]
     | Some r =>
-      JObj [("ok", JBool true);
+      JObj ([("ok", JBool true);
             ("parts", JArr (map (fun p => JArr [JNum (fst p); JNum (snd p)]) (r_parts r)));
             ("order_ok", JBool (r_order_ok r));
             ("digest", JStr (match r_digest r with DRetail => "retail" | DBypass => "bypass" | DBad => "bad" end));
@@ -252,15 +252,8 @@ Definition do_check (j : json) : json :=
                                            else if Z.eqb k 5 then "attribute group/entry not defined" else "count mismatch"));
                              ("at", JArr [JNum (r_what rf); JNum (r_idx rf); JNum (r_bound rf)])]
                      end);
-            ("sig", match snd (r_sig r) with
-                    | None => JObj [("ok", JBool true)]
-                    | Some e => JObj [("ok", JBool false); ("err", JStr e)]
-                    end);
-            ("psv", match fst (r_sig r) with
-                    | Some i => JObj [("stage", JNum (psv_stage i)); ("sig_in", JNum (psv_sig_in i)); ("sig_out", JNum (psv_sig_out i));
-                                      ("resources", JNum (psv_nres i)); ("entry", jnums (psv_entry_name i)); ("threads", jnums (psv_threads i))]
-                    | None => JNull
-                    end)]
+            ("sigs", match parse b with Some (_, ps) => json_of_sigs ps | None => JNull end)] ++
+            json_of_sig_result (r_sig r))
     end
   | None => jerr "bad check job"
   end.
